@@ -625,12 +625,40 @@ Qed.
 Theorem round_away_correct_partial q : frac_ok q -> round_modes_agree q = true -> lowered_round q = jax_round_away q.
 Proof. intros Hq H. now apply (round_away_correct_iff q Hq). Qed.
 
-(* a repaired lowering that honours AWAY_FROM_ZERO with Sign / Abs / Floor: sign(x) * floor(|x| + 1/2)
-   (.scratch/c01k/fix_round.diff) *)
+(* the repaired lowering (.scratch/c01k/fix_round.diff): Round is kept except on exact halfway cases of |x|,
+     Where(Equal(Sub(Abs x, Floor(Abs x)), 0.5), Mul(Sign x, Add(Floor(Abs x), 1)), Round x) *)
 Definition repaired_round_away (q : frac) : Z :=
-  Z.sgn (fst q) * o_floor (2 * Z.abs (fst q) + snd q, 2 * snd q).
+  o_where (q_eqb (q_sub_z (q_abs q) (o_floor (q_abs q))) (1, 2))
+          (z_mul (q_sign q) (z_add (o_floor (q_abs q)) 1))
+          (o_round q).
+
+Lemma tie_abs n d : 0 < d -> (2 * (Z.abs n mod d) = d <-> 2 * (n mod d) = d).
+Proof.
+  intro Hd. destruct (Z.le_gt_cases 0 n) as [Hn | Hn]; [rewrite Z.abs_eq by lia; tauto|].
+  rewrite Z.abs_neq by lia.
+  pose proof (Z.div_mod n d ltac:(lia)) as He. pose proof (Z.mod_pos_bound n d Hd) as Hr.
+  set (f := n / d) in *. set (r := n mod d) in *. clearbody f r.
+  destruct (Z.eq_dec r 0) as [Hr0 | Hr0].
+  - assert (Hm : (- n) mod d = 0) by (symmetry; apply Z.mod_unique with (q := - f); nia). rewrite Hm. lia.
+  - assert (Hm : (- n) mod d = d - r) by (symmetry; apply Z.mod_unique with (q := - f - 1); nia). rewrite Hm. lia.
+Qed.
+
 Theorem repaired_round_away_correct q : frac_ok q -> repaired_round_away q = jax_round_away q.
-Proof. reflexivity. Qed.
+Proof.
+  destruct q as [n d]; unfold frac_ok; cbn [fst snd]; intro Hd.
+  unfold repaired_round_away, q_eqb, q_sub_z, q_abs, q_sign, o_floor, o_where, z_mul, z_add; cbn [fst snd].
+  pose proof (Z.div_mod (Z.abs n) d ltac:(lia)) as He. pose proof (Z.mod_pos_bound (Z.abs n) d Hd) as Hr.
+  destruct ((Z.abs n - Z.abs n / d * d) * 2 =? 1 * d) eqn:E.
+  - (* halfway case of |x| *)
+    apply Z.eqb_eq in E. assert (Ht : 2 * (Z.abs n mod d) = d) by nia.
+    unfold jax_round_away; cbn [fst snd]. f_equal.
+    destruct (half_up_floor (Z.abs n) d Hd) as [Hq _]. rewrite Hq.
+    rewrite (proj2 (Z.ltb_ge (2 * (Z.abs n mod d)) d)) by lia. reflexivity.
+  - apply Z.eqb_neq in E. assert (Ht : 2 * (Z.abs n mod d) <> d) by nia.
+    apply (round_away_correct_partial (n, d) Hd). unfold round_modes_agree; cbn [fst snd].
+    rewrite (proj2 (Z.eqb_neq (2 * (n mod d)) d)) by (intro H; apply Ht; apply (tie_abs n d Hd); exact H).
+    reflexivity.
+Qed.
 
 (* ================================================================ 9. integer_pow, convert_element_type *)
 (* lax.integer_pow: repeated wrapped multiplication *)
